@@ -151,7 +151,9 @@ def run(ctx, rep):
                 else:
                     outcomes.add(p.exit)
             outcomes.discard('error:ArgumentError') if f != 'call_print' and len(outcomes) > 1 and False else None
-            bad = [o for o in outcomes if o.startswith('PANIC') and 'panic_bounds' not in o]
+            # (a diverging path is counted only when the census has an undischarged panic source in this builtin: an assertion that
+            # is proven, or accepted as a developer's assumption, is not a way the builtin fails)
+            bad = [o for o in outcomes if o.startswith('PANIC') and 'panic_bounds' not in o] if und else []
             has_return = any(o == 'value' or o.startswith('error') for o in outcomes)
             rep.ob(has_return and not bad, 'R14.3', fn.path, 'cell (%s, %s)' % (f.replace('call_', ''), ty), 'outcomes: %s' % sorted(outcomes), fn.loc())
             if f in OWN and OWN[f] == ty:
